@@ -124,7 +124,7 @@ def _cty(ty):
 
 class GenSpec(FnSpec):
     def __init__(self, path, cls, method, name, requests=(), callouts=(), raises=(), objects=(), sees=None, interrupt=None,
-                 binds=None, param_objects=(), iterables=(), idx_aliases=(), idx_reads=(), spin=False, **kw):
+                 binds=None, param_objects=(), iterables=(), idx_aliases=(), idx_reads=(), spin=False, len_effects=None, **kw):
         for bad in ("select", "guards", "aliases", "decorator", "ret"):
             if bad in kw:
                 raise ValueError(f"GenSpec: {bad} is not supported for generator bodies")
@@ -140,6 +140,11 @@ class GenSpec(FnSpec):
         self.idx_aliases = [tuple(x) for x in idx_aliases]
         self.idx_reads = [tuple(x) for x in idx_reads]
         self.spin = spin
+        # {len-observation parameter: {effect constructor: +1 / -1}}: the collection behind a "len" observation is changed by
+        # listed effects (`self.active_set.remove(c)`); a read after such an effect is the parameter (the length when the
+        # process resumed) plus the changes made on this path.  remove() of an absent element raises in Python: the bridge
+        # states membership.
+        self.len_effects = {p: dict(m) for p, m in (len_effects or {}).items()}
         self.interrupt = interrupt
 
 
@@ -198,6 +203,7 @@ class GenTr(FxTr):
         env["unrolled"] = frozenset()
         env["wsnap"] = {}          # while statement -> environment at its first entry on this path
         env["forfix"] = {}         # for statement -> (name of the enclosing generated fix, environment at its creation)
+        env["lendelta"] = {}       # len-observation parameter -> change made by effects on this path
         return env
 
     @staticmethod
@@ -206,13 +212,15 @@ class GenTr(FxTr):
         env2["unrolled"] = env["unrolled"]
         env2["wsnap"] = dict(env["wsnap"])
         env2["forfix"] = dict(env["forfix"])
+        env2["lendelta"] = dict(env["lendelta"])
         return env2
 
     def hidden(self, node):
         return f"for{self.for_index[id(node)]}_rest"
 
     def snapshot(self, env):
-        return ({key: v.term for key, v in env["vars"].items()}, self.fx_term(env["fx"]), frozenset(env["drawn"]))
+        return ({key: v.term for key, v in env["vars"].items()}, self.fx_term(env["fx"]) + repr(sorted(env["lendelta"].items())),
+                frozenset(env["drawn"]))
 
     def unchanged(self, env, snap, ignore=()):
         """nothing the code can observe differs from the snapshot (locals assigned since, and the locals in `ignore`, do
@@ -220,7 +228,7 @@ class GenTr(FxTr):
         vars0, fx0, drawn0 = snap
         return (all(key in env["vars"] and env["vars"][key].term == t for key, t in vars0.items()
                     if not (key[0] == "local" and key[1] in ignore))
-                and self.fx_term(env["fx"]) == fx0 and frozenset(env["drawn"]) == drawn0)
+                and self.fx_term(env["fx"]) + repr(sorted(env["lendelta"].items())) == fx0 and frozenset(env["drawn"]) == drawn0)
 
     def loop_locals(self, node, rest):
         """the locals an iteration of `for` statement node (re)binds: targets, the hidden rest, everything assigned in the
@@ -256,6 +264,8 @@ class GenTr(FxTr):
                     return (f"({param} {v.term})", ty)
         if r is not None:
             self.check_bound(e, env, "observation")
+            if r[1] == "len" and env["lendelta"].get(r[0]):
+                return (f"({r[0]} + ({env['lendelta'][r[0]]}))%Z", "len")
         return r
 
     def expr(self, e, env):
@@ -286,6 +296,9 @@ class GenTr(FxTr):
                 env2["fx"][1].append(con if not args else "(" + " ".join([con] + args) + ")")
                 env2["stale"] |= {p for p in self.volatile if p not in keeps}
                 env2["done"].add(con)
+                for lp, m in self.spec.len_effects.items():
+                    if con in m:
+                        env2["lendelta"][lp] = env2["lendelta"].get(lp, 0) + m[con]
                 if con in self.spec.binds:                       # `packet = Packet(..)`: the effect creates the object
                     tgt = s.targets[0] if isinstance(s, ast.Assign) and len(s.targets) == 1 else None
                     if not isinstance(tgt, ast.Name) or tgt.id != self.spec.binds[con]:
@@ -320,6 +333,10 @@ class GenTr(FxTr):
                 return True
             if isinstance(n, ast.stmt) and self.callout_of(n) is not None:
                 return True
+            if self.spec.len_effects and isinstance(n, ast.stmt):        # an effect that changes an observed length: the
+                for (pat, con, _, _) in self.effects:                    # branches of an if around it are not joined
+                    if any(con in m for m in self.spec.len_effects.values()) and _match(pat, n, {}):
+                        return True
         return False
 
     def names_after(self, kont):
